@@ -114,6 +114,54 @@ func codeCreate2Child() []byte {
 	return (&asm{}).push1(1).push1(0).push1(0).op(opCALLVALUE, 0xf5, opPOP, opSTOP).b
 }
 
+// callSeq calls x once per entry of values: "cv" = CALLVALUE, "bal" = SELFBALANCE, otherwise a constant.
+func callSeq(calls []calls) []byte {
+	a := &asm{}
+	for _, c := range calls {
+		c := c
+		a.callWith(c.to, func(a *asm) {
+			switch c.val {
+			case "cv":
+				a.op(opCALLVALUE)
+			case "bal":
+				a.op(opSELFBALANCE)
+			default:
+				v, _ := new(big.Int).SetString(c.val, 10)
+				a.pushBig(v)
+			}
+		})
+	}
+	return a.op(opSTOP).b
+}
+
+// CREATE a child from the init code appended to this code, then CALL the child once per value
+// ("cv" = CALLVALUE, otherwise a constant below 256).
+func codeCreateThenCall(childInit []byte, values []string) []byte {
+	build := func(off byte) []byte {
+		a := &asm{}
+		a.push1(byte(len(childInit))).push1(off).push1(0).op(opCODECOPY)
+		a.push1(byte(len(childInit))).push1(0).push1(0).op(opCREATE)
+		a.push1(0x80).op(opMSTORE)
+		for _, v := range values {
+			a.push1(0).push1(0).push1(0).push1(0)
+			if v == "cv" {
+				a.op(opCALLVALUE)
+			} else {
+				var n int
+				for _, ch := range v {
+					n = n*10 + int(ch-'0')
+				}
+				a.push1(byte(n))
+			}
+			a.push1(0x80).op(0x51 /* MLOAD */, opGAS, opCALL, opPOP)
+		}
+		return a.op(opSTOP).b
+	}
+	pro := build(0)
+	pro = build(byte(len(pro)))
+	return append(pro, childInit...)
+}
+
 // initCode wraps runtime code in a constructor that returns it.
 func initCode(runtime []byte) []byte {
 	// PUSH1 len DUP1 PUSH1 off PUSH1 0 CODECOPY PUSH1 0 RETURN   (12 bytes)
@@ -135,7 +183,7 @@ func randomCode(r *rand.Rand, targets []common.Address, lib []libContract) []byt
 	a := &asm{}
 	n := 1 + r.Intn(4)
 	for i := 0; i < n; i++ {
-		switch r.Intn(6) {
+		switch r.Intn(7) {
 		case 0: // send a small constant amount to a target
 			t := targets[r.Intn(len(targets))]
 			v := big.NewInt(int64(r.Intn(5000)))
@@ -155,6 +203,17 @@ func randomCode(r *rand.Rand, targets []common.Address, lib []libContract) []byt
 			}
 		case 5: // create a child endowed with a small amount
 			a.push1(0).push1(0).push1(byte(r.Intn(200))).op(opCREATE, opPOP)
+		case 6: // call a self-destructing library contract (beneficiary: another account) twice
+			if len(lib) > 13 {
+				victim := lib[[]int{4, 13}[r.Intn(2)]].Addr
+				first, second := big.NewInt(int64(r.Intn(2)*r.Intn(900))), big.NewInt(int64(1+r.Intn(900)))
+				a.callWith(victim, func(a *asm) { a.pushBig(first) })
+				if r.Intn(2) == 0 {
+					a.callWith(victim, func(a *asm) { a.op(opCALLVALUE) })
+				} else {
+					a.callWith(victim, func(a *asm) { a.pushBig(second) })
+				}
+			}
 		}
 	}
 	switch r.Intn(8) {
